@@ -57,6 +57,18 @@ Proof.
 Qed.
 Print Assumptions C13_stable.
 
+(* hybrid plants: the shaft lines come back as they were, their PTI/PTOs are again the very objects the
+   switchboards list (found by uid and name), and each of those gets its shaft line back; the second pass
+   changes nothing *)
+Theorem C13_hybrid_roundtrip : forall fresh name e ls, hybrid_ok e ls ->
+  dec_system fresh (enc_system (SHybrid name e ls)) = Some (SHybrid name (group_electric e) ls) /\
+  dec_system fresh (enc_system (SHybrid name (group_electric e) ls)) = Some (SHybrid name (group_electric e) ls).
+Proof.
+  intros fresh name e ls H. split; [apply dec_enc_system_hybrid, H|].
+  rewrite (dec_enc_system_hybrid fresh name _ ls (hybrid_ok_group e ls H)), group_electric_idem. reflexivity.
+Qed.
+Print Assumptions C13_hybrid_roundtrip.
+
 (* the edges of the domain, stated rather than hidden *)
 Theorem C13_short_uid_replaced : forall fresh u, (String.length u <= 5)%nat -> dec_uid fresh u = fresh.
 Proof.
@@ -95,6 +107,30 @@ Definition ex_electric : f_electric :=
      x_breakers := [(1%nat, 2%nat)] |}.
 Definition ex_lines : list (nat * list m_comp) :=
   [(1%nat, [MPropeller "prop" "uid-prop-1" 5000 100 [(0, 1); (1, 1)]; MEngineGB "me" "uid-me-001" ex_eng ex_gen])].
+
+Definition ex_pti : f_serial :=
+  {| r_pti := true; r_name := "pti"; r_uid := "uid-pti-01"; r_rated := 600; r_speed := 1000; r_line := 1;
+     r_stages := [ {| g_kind := KConverter; g_name := "afe"; g_rated := 600; g_speed := 0; g_eff := [(0, 98#100); (1, 98#100)]; g_uid := "uid-afe-01" |};
+                   {| g_kind := KMachine; g_name := "sg"; g_rated := 600; g_speed := 1000; g_eff := [(1#4, 94#100); (1, 96#100)]; g_uid := "uid-sg-001" |} ] |}.
+Definition ex_hybrid_electric : f_electric :=
+  {| x_swbs := [(1%nat, [CSerial ex_pti; CLoad ex_load; CGenset "gs1" "uid-gs-001" ex_eng ex_gen])]; x_breakers := [] |}.
+Definition ex_hybrid_lines : list (nat * list m_comp) :=
+  [(1%nat, [MPropeller "prop" "uid-prop-1" 5000 100 [(0, 1); (1, 1)]; MPti true ex_pti; MEngine "me" "uid-me-001" ex_eng])].
+
+Example C13_hybrid_hypotheses_satisfiable : hybrid_ok ex_hybrid_electric ex_hybrid_lines.
+Proof.
+  constructor.
+  - vm_compute. reflexivity.
+  - repeat split; try reflexivity. repeat constructor; discriminate.
+  - vm_compute. discriminate.
+  - vm_compute. repeat constructor. intros [].
+  - vm_compute. repeat constructor. intros [].
+  - repeat constructor; vm_compute; auto.
+  - reflexivity.
+  - vm_compute. reflexivity.
+  - intros w c [<-|[]] Hc. cbn [snd ex_hybrid_electric x_swbs] in Hc.
+    destruct Hc as [<-|[<-|[<-|[]]]]; try exact I. vm_compute. discriminate.
+Qed.
 
 Example C13_hypotheses_satisfiable :
   wf_electric ex_electric = true /\ representable ex_electric /\ wf_lines ex_lines = true /\
